@@ -70,6 +70,13 @@ func c09Boundary(j *orch.Job, r *orch.Result) error {
 			h := e.V204
 			m.ForceGraded[h-1], m.ForceGraded[h+1], m.ForceGraded[h+2] = true, true, true
 			m.ForceUngraded[h] = true
+			// nothing executes at the two one-way activation heights themselves either (no rates in those blocks)
+			for _, a := range []uint32{e.OneWaypFCT, e.V202} {
+				if a%144 != 0 {
+					m.ForceGraded[a-1], m.ForceGraded[a+1] = true, true
+					m.ForceUngraded[a] = true
+				}
+			}
 			stakers := func(v *gen.View, n int) []forge.Key {
 				var st []forge.Key
 				for _, a := range gen.TopPEG(v.Balances, 100) {
@@ -110,6 +117,7 @@ func c09Boundary(j *orch.Job, r *orch.Result) error {
 		sets = append(sets, []uint32{a - 1}, []uint32{a}, []uint32{a + 1})
 	}
 	sets = append(sets, []uint32{e.V20Dev, e.V202, e.V204, e.V204Burn})
+	sets = append(sets, []uint32{e.OneWaypFCT - 1}, []uint32{e.OneWaypFCT}, []uint32{e.OneWaypFCT + 1}) // 20, 21, 22
 	if p.Span > 0 {
 		// one job per restart set (the chain is forged again in each: same seed, same chain)
 		sets = [][]uint32{sets[(p.Span-1)%len(sets)]}
@@ -126,7 +134,7 @@ func c09Boundary(j *orch.Job, r *orch.Result) error {
 		r.Count("nontrivial", 1)
 		r.Seen("nontrivial_cases", fmt.Sprintf("boundary-r%v", abs))
 		first := uint32(0)
-		for h := e.V20 - 2; h <= tip; h++ {
+		for h := e.OneWaypFCT - 2; h <= tip; h++ {
 			if meta.PerHeight[h] != "" && res.PerHeight[h] != "" && meta.PerHeight[h] != res.PerHeight[h] {
 				first = h
 				break
@@ -503,10 +511,10 @@ func checkC09(c *Ctx) *orch.Outcome {
 	}
 	for k := 0; k < nb; k++ {
 		// restart sets: index 1..19 = {a-1},{a},{a+1} for the six activations from 2.0 on, then all of four at once
-		idx := []int{10, 11, 12, 8, 5, 17, 19} // 2.0.4 -1/0/+1, 2.0.2, dev rewards, PIP-10, several
+		idx := []int{10, 11, 12, 8, 5, 17, 19, 21} // 2.0.4 -1/0/+1, 2.0.2, dev rewards, PIP-10, several, pFCT one-way
 		if c.Thorough() {
 			idx = nil
-			for i := 1; i <= 19; i++ {
+			for i := 1; i <= 22; i++ {
 				idx = append(idx, i)
 			}
 		}
